@@ -95,7 +95,9 @@ theorem C03_finish_last (nS nM : Nat) (e e' : Enc) (h : encEv nS nM e ⟨mds_FIN
   unfold encEv at h
   have h1 : ¬ ((⟨mds_FINISH, 0⟩ : MEv).type = mds_REST ∧ (⟨mds_FINISH, 0⟩ : MEv).arg ≠ 0) := by decide
   have h2 : ¬ ((⟨mds_FINISH, 0⟩ : MEv).type < mds_SLR ∧ (⟨mds_FINISH, 0⟩ : MEv).arg ≠ 0) := by decide
-  simp only [h1, h2, if_false] at h
+  have h0 : ¬ ((⟨mds_FINISH, 0⟩ : MEv).type = mds_LPB ∧ e.breaks.head?.getD 0 ≠ 0) := by
+    intro hh; exact absurd hh.1 (by decide)
+  simp only [h0, h1, h2, if_false] at h
   have h3 : encOther nS nM e mds_FINISH 0 = .ok { e with out := e.out ++ [mds_FINISH] } := by
     unfold encOther
     have a : ¬ (mds_FINISH = mds_SEGNO) := by decide
